@@ -3,6 +3,7 @@ import MpcVerif.Model.Determinism
 import MpcVerif.Model.ProcState
 import MpcVerif.Model.ProcSteps
 import MpcVerif.Model.ProcConc
+import MpcVerif.Model.WidthTable
 
 namespace Drv.C08
 open Mpc Mpc.Det Drv
@@ -101,6 +102,8 @@ def parseElement (s : String) : Option (List Nat × List (PSt.Req Unit)) :=
                                                  process (`PSt.outputsAlong PSt.stepNow`), `src` = `w:op:x:y,...`
 `ahist <step>;<step>;...`                      → the outputs of every step of a one-process history over ALL step kinds
                                                  (`PSt.outputsAlongK PSt.stepNowK`), see `parseReq` / `renderOut`
+`mthr <yao|gmw> <w> <lo> <cnt> <k:v,...>`       → the multiplier limits equivalent to the default parameters at operand
+                                                 width w (`WT.multClass`: table lookup by key + Karatsuba recursion)
 `chist <element>;<element>;...`                → the outputs of every step of a one-process history whose elements are
                                                  CONCURRENT (`PSt.runElements PSt.microNow` over the micro-steps
                                                  `PSt.microsK` of every step, under the element's schedule, put together
@@ -166,6 +169,18 @@ def handle (args : List String) : String :=
       let outs := PSt.runElements (PSt.microNow (σ := Unit)) () (els.map fun e => (e.1, e.2.map PSt.microsK))
       ";".intercalate ((els.zip outs).map fun (e, o) =>
         "&".intercalate ((e.2.zip o).map fun (r, ps) => renderOut r.kind (PSt.assembleK ps)))
+  | ["mthr", target, w, lo, cnt, tbl] =>
+    -- the limits L in [lo, lo+cnt) for which Params.CircMultArrayTreshold = L gives the circuit of the default
+    -- parameters for `a * b` on w-bit operands; tbl = the width-indexed table read from the source, `k:v,...`
+    let entries := (listOf tbl).mapM fun e =>
+      match e.splitOn ":" with
+      | [k, v] => do some ((← k.toNat?), (← v.toNat?))
+      | _ => none
+    match entries, w.toNat?, lo.toNat?, cnt.toNat? with
+    | some entries, some w, some lo, some cnt =>
+      if target != "yao" && target != "gmw" then "bad-op" else
+      joinOr ((WT.multClass (target == "gmw") entries w lo cnt).map toString)
+    | _, _, _, _ => "bad-op"
   | ["fhist", lib, root, calls, n] =>
     -- failing compilation (n function instances done), good one, failing one, good one - on one Compiler
     match n.toNat?, parseLib lib with
